@@ -134,40 +134,41 @@ Section MWP.
   Qed.
 
   Lemma run_spec_strict hs :
-    (route_ok && req_ok = true -> g_wrote hs = true) ->
     spec_ok route_ok req_ok resp_ok ef true hs (run route_ok req_ok resp_ok ef true hs) = true.
   Proof.
-    intros Hg. unfold spec_ok. rewrite handler_iff, Bool.eqb_reflx. cbn [andb].
+    unfold spec_ok. rewrite handler_iff, Bool.eqb_reflx. cbn [andb].
     unfold run. destruct route_ok; cbn [negb].
     2:{ cbn [o_client o_errs]. rewrite client_obs_eqb_refl. reflexivity. }
     destruct req_ok; cbn [negb].
     2:{ cbn [o_client o_errs]. rewrite client_obs_eqb_refl. reflexivity. }
-    specialize (Hg eq_refl). unfold g_wrote in Hg.
     pose proof (strict_fold hs (wrap0 client0)) as Hfold.
     unfold strict_res in Hfold; cbn [wrap0 w_cl w_body w_hw w_status orb String.append] in Hfold.
     unfold spec_status. rewrite Hfold. unfold client0.
-    rewrite (cl_run_fresh "" hs).
-    destruct (handler_status hs) as [n|] eqn:Hs; [|discriminate].
-    cbn [w_cl w_status w_body c_panic String.append].
-    destruct (code_valid n) eqn:Hv; cbn [c_panic]; [|reflexivity].
-    destruct (resp_ok n (handler_body hs)); cbn [negb].
-    - cbn [o_client o_errs]. unfold strict_flush. cbn [w_cl w_status w_body].
-      unfold cl_write_header, cl_write; cbn. rewrite Hv; cbn.
-      rewrite client_obs_eqb_refl. reflexivity.
-    - cbn [o_client o_errs]. rewrite client_obs_eqb_refl. reflexivity.
+    rewrite (cl_run_fresh "" hs). unfold w_code, g_wrote.
+    destruct (handler_status hs) as [n|] eqn:Hs;
+      cbn [w_cl w_status w_body w_hw c_panic String.append].
+    - destruct (code_valid n) eqn:Hv; cbn [c_panic]; [|reflexivity].
+      destruct (resp_ok n (handler_body hs)); cbn [negb].
+      + cbn [o_client o_errs]. unfold strict_flush, w_code. cbn [w_cl w_status w_body w_hw].
+        unfold cl_write_header, cl_write; cbn. rewrite Hv; cbn.
+        rewrite client_obs_eqb_refl. reflexivity.
+      + cbn [o_client o_errs]. rewrite client_obs_eqb_refl. reflexivity.
+    - (* the handler wrote nothing: implicit 200, empty body *)
+      destruct (resp_ok 200 (handler_body hs)); cbn [negb].
+      + cbn [o_client o_errs]. unfold strict_flush, w_code. cbn [w_cl w_status w_body w_hw].
+        assert (Hb : handler_body hs = "").
+        { clear -Hs. induction hs as [|h r IH]; [reflexivity|].
+          destruct h; cbn in *; try discriminate; auto. }
+        rewrite Hb. reflexivity.
+      + cbn [o_client o_errs]. rewrite client_obs_eqb_refl. reflexivity.
   Qed.
 
   Lemma run_spec strict hs :
-    (strict = true -> route_ok && req_ok = true -> g_wrote hs = true) ->
     spec_ok route_ok req_ok resp_ok ef strict hs (run route_ok req_ok resp_ok ef strict hs) = true.
   Proof.
-    destruct strict; intros Hg; [apply run_spec_strict; auto | apply run_spec_nonstrict].
+    destruct strict; [apply run_spec_strict | apply run_spec_nonstrict].
   Qed.
 End MWP.
 
-(* the unguarded statement is false of the faithful model: a strict-mode handler that writes
-   nothing makes flushBodyContents call WriteHeader(0) on the client writer, which panics *)
-Lemma run_spec_strict_refuted :
-  exists hs, spec_ok true true (fun _ _ => true) default_ef true hs
-               (run true true (fun _ _ => true) default_ef true hs) = false.
-Proof. exists []. vm_compute. reflexivity. Qed.
+(* History: before the fix: commit in /repo (finding F-C14-1) the strict wrapper called
+   WriteHeader(0) when the handler wrote nothing, and this statement needed the guard g_wrote. *)
